@@ -1,3 +1,4 @@
+import Proofs.Contract
 import Proofs.Ext
 import Proofs.Graded
 import Model.Table
@@ -116,5 +117,25 @@ theorem outer_is_exterior_product (x y : CliffordAlgebra (Cl.Q n (fun _ => (0 : 
   Cl.wedge_is_exterior_product x y
 
 end Exterior
+
+
+/-! ### the canonical definition of the left contraction by a vector
+
+Mathlib's `CliffordAlgebra.contractLeft d` (for a dual vector `d`) is the antiderivation with `d ⌋ (ι a · b) = d(a) b − ι a · (d ⌋ b)`.  With
+`d = B(v, ·)`, the metric dual of the vector `v` (`B` the bilinear form of `Σ sig_i x_i²`), it is the coded `v << X` (`lcmt` table), under the
+isomorphism of C01 (coefficients in ℚ). -/
+section Contraction
+variable {N : Nat} {sig : Nat → ℚ}
+
+/-- the coded left contraction by a vector is an antiderivation: `v ⌋ (w X) = B(v, w) X − w (v ⌋ X)` -/
+theorem left_contraction_antiderivation (v w : Fin N → ℚ) (X : Cl N sig) :
+    (asCl (mmul N sig lcmtCheck (Cl.vec v : Cl N sig) ((Cl.vec w * X : Cl N sig))) : Cl N sig)
+      = Cl.B N sig v w • X - Cl.vec w * asCl (mmul N sig lcmtCheck (Cl.vec v : Cl N sig) X) := Cl.lc_antiderivation v w X
+
+theorem left_contraction_is_mathlib_contractLeft (v : Fin N → ℚ) (x : CliffordAlgebra (Cl.Q N sig)) :
+    (Cl.fromMathlib (CliffordAlgebra.contractLeft (Cl.dualOf N sig v) x) : Cl N sig)
+      = asCl (mmul N sig lcmtCheck (Cl.vec v : Cl N sig) (Cl.fromMathlib x : Cl N sig)) := Cl.fromMathlib_contractLeft v x
+
+end Contraction
 
 end C02
